@@ -791,3 +791,132 @@ func VerifC10_SetMany() {
 	vrt.Reach("set")
 	verifC10Check(&v, e.encode(), "C10.setmany")
 }
+
+func init() {
+	vrt.Register("VerifC10_Int64Key", VerifC10_Int64Key)
+	vrt.Register("VerifC10_PackedInElement", VerifC10_PackedInElement)
+}
+
+// VerifC10_Int64Key: M{map<int64,string> m=1; string t=2} with one entry: insert / replace / unset the key KV
+// (a table of values around the 32-bit boundary).
+func VerifC10_Int64Key() {
+	kv := []int64{5, 1 << 40, -(1 << 33), 1<<32 + 1, 2147483648, -2147483649}[vrt.Param("KV")]
+	op := vrt.Param("OP") // 0 insert absent key, 1 replace existing, 2 unset existing
+	msg := proto.VerifNewMessage("M")
+	proto.VerifAddMap(msg, 1, "m", "m", proto.VerifBasic(proto.INT64), proto.VerifBasic(proto.STRING))
+	proto.VerifAddField(msg, 2, "t", "t", proto.VerifBasic(proto.STRING), false)
+	proto.VerifBuild(msg)
+	entry := func(k int64, v []byte) []byte {
+		var e []byte
+		e = gpw.AppendVarint(gpw.AppendTag(e, 1, gpw.VarintType), uint64(k))
+		e = gpw.AppendBytes(gpw.AppendTag(e, 2, gpw.BytesType), v)
+		return gpw.AppendBytes(gpw.AppendTag(nil, 1, gpw.BytesType), e)
+	}
+	v0, nv, tv := verifC10Str(1), verifC10Str(2), verifC10Str(1)
+	existing := int64(7)
+	if op != 0 {
+		existing = kv
+	}
+	src := append(entry(existing, v0), gpw.AppendBytes(gpw.AppendTag(nil, 2, gpw.BytesType), tv)...)
+	v := NewRootValue(msg, src)
+	var want []byte
+	var err error
+	switch op {
+	case 0:
+		_, err = v.SetByPath(NewNodeString(string(nv)), NewPathFieldId(1), NewPathIntKey(int(kv)))
+		want = append(append(entry(existing, v0), entry(kv, nv)...), gpw.AppendBytes(gpw.AppendTag(nil, 2, gpw.BytesType), tv)...)
+	case 1:
+		_, err = v.SetByPath(NewNodeString(string(nv)), NewPathFieldId(1), NewPathIntKey(int(kv)))
+		want = append(entry(kv, nv), gpw.AppendBytes(gpw.AppendTag(nil, 2, gpw.BytesType), tv)...)
+	default:
+		err = v.UnsetByPath(NewPathFieldId(1), NewPathIntKey(int(kv)))
+		want = gpw.AppendBytes(gpw.AppendTag(nil, 2, gpw.BytesType), tv)
+	}
+	vrt.Assert(err == nil, "C10.int64key.noerror")
+	if err != nil {
+		return
+	}
+	vrt.Reach("edited")
+	got := v.Raw()
+	vrt.Dump("C10.int64key want", want)
+	vrt.Dump("C10.int64key got ", got)
+	_, ok := vrt.PFields(got)
+	vrt.Assert(ok, "C10.int64key.well-formed")
+	if ok {
+		vrt.Assert(vrt.PEq(want, got, &vrt.PSchema{Sub: map[int]*vrt.PSchema{1: {}}}, 3), "C10.int64key.equals-model")
+	}
+	if op != 2 {
+		g := v.GetByPath(NewPathFieldId(1), NewPathIntKey(int(kv)))
+		s, e2 := g.String()
+		vrt.Assert(e2 == nil && s == string(nv), "C10.int64key.readable-after")
+	}
+}
+
+// VerifC10_PackedInElement: Top{repeated Mid mids=1; string z=2}, Mid{repeated int32 nums=1 [packed]; string s=2}:
+// a size-changing edit of nums[J] of element SEL (two elements, two numbers each): every enclosing prefix - the
+// packed run's and the element's - follows, the other element is untouched.
+func VerifC10_PackedInElement() {
+	sel := vrt.Param("SEL")
+	j := vrt.Param("J")   // 0,1 existing; 2 append
+	op := vrt.Param("OP") // 0 set, 1 unset
+	mid := proto.VerifNewMessage("Mid")
+	proto.VerifAddField(mid, 1, "nums", "nums", proto.VerifBasic(proto.INT32), true)
+	proto.VerifAddField(mid, 2, "s", "s", proto.VerifBasic(proto.STRING), false)
+	proto.VerifBuild(mid)
+	top := proto.VerifNewMessage("Top")
+	proto.VerifAddField(top, 1, "mids", "mids", mid, true)
+	proto.VerifAddField(top, 2, "z", "z", proto.VerifBasic(proto.STRING), false)
+	proto.VerifBuild(top)
+	nums := [][]uint64{{verifSmallI32(), verifSmallI32()}, {verifSmallI32(), verifSmallI32()}}
+	ss := [][]byte{verifC10Str(1), verifC10Str(1)}
+	enc := func() []byte {
+		var b []byte
+		for i := range nums {
+			var m []byte
+			if len(nums[i]) > 0 {
+				var p []byte
+				for _, x := range nums[i] {
+					p = gpw.AppendVarint(p, x)
+				}
+				m = gpw.AppendBytes(gpw.AppendTag(m, 1, gpw.BytesType), p)
+			}
+			m = gpw.AppendBytes(gpw.AppendTag(m, 2, gpw.BytesType), ss[i])
+			b = gpw.AppendBytes(gpw.AppendTag(b, 1, gpw.BytesType), m)
+		}
+		return gpw.AppendBytes(gpw.AppendTag(b, 2, gpw.BytesType), []byte{'z'})
+	}
+	src := enc()
+	v := NewRootValue(top, src)
+	pth := []Path{NewPathFieldId(1), NewPathIndex(sel), NewPathFieldId(1), NewPathIndex(j)}
+	var err error
+	if op == 0 {
+		nv := uint64(int64(int32(vrt.U32()))) // any width: 1..10 bytes
+		if j < 2 {
+			nums[sel][j] = nv
+		} else {
+			nums[sel] = append(nums[sel], nv)
+		}
+		_, err = v.SetByPath(NewNodeInt32(int32(nv)), pth...)
+	} else {
+		if j >= 2 {
+			vrt.Reach("edited")
+			return
+		}
+		nums[sel] = append(append([]uint64{}, nums[sel][:j]...), nums[sel][j+1:]...)
+		err = v.UnsetByPath(pth...)
+	}
+	vrt.Assert(err == nil, "C10.packed-in-element.noerror")
+	if err != nil {
+		return
+	}
+	vrt.Reach("edited")
+	got := v.Raw()
+	want := enc()
+	vrt.Dump("C10.packed-in-element want", want)
+	vrt.Dump("C10.packed-in-element got ", got)
+	_, ok := vrt.PFields(got)
+	vrt.Assert(ok, "C10.packed-in-element.well-formed")
+	if ok {
+		vrt.Assert(vrt.PEq(want, got, &vrt.PSchema{Sub: map[int]*vrt.PSchema{1: {Packed: map[int]bool{1: true}}}}, 3), "C10.packed-in-element.equals-model")
+	}
+}
